@@ -39,7 +39,7 @@ CHECKS = {
         text="PilotsMatchSubmissions compares the pilot matrix with an independent definition from the submission log; "
              "Reject leaves durable state unchanged (action property). Replay submits the spec's schedules (permuted "
              "mapping order, int/float/numpy values, longer than the horizon, at every period incl. the last, unknown "
-             "station, ragged rows) and compares the recorded and applied pilots.",
+             "station, ragged rows) and compares the recorded and applied pilots. Full-station schedules also go through format_array_schedule; pilots inside the acceptance band above the maximum (32.0005 A) must be recorded as submitted; a one-element row among longer ones is rejected.",
         tech="TLA+ spec (AcnSim.tla) + TLC invariants/action properties + spec-to-code behaviour replay",
         ref="5/C04", note=ACN_NOTE),
     "C05": dict(
@@ -97,7 +97,7 @@ CHECKS["C06"] = dict(
          "algorithms.utils.infrastructure_constraints_feasible and must give the spec's verdict and magnitude. A "
          "constraint-free network is driven through the Interface and the real schedulers. Inside the simulator: "
          "AcnSim.tla defines Warning(ConsAgg, m) (whether _update_schedules must warn about a submitted schedule, and the "
-         "worst constraint, column and excess it names); behaviours are replayed and the real warnings compared.",
+         "worst constraint, column and excess it names); behaviours are replayed and the real warnings compared. Aggregates exactly on limit + tolerance are decisive where floating point is exact (network E1); one case in sixteen is resubmitted behind 1100 idle periods.",
     tech="TLA+ spec (Feasibility.tla) + TLC theorems over an exact lattice + one implementation test per TLC case",
     ref="5/C06", note="Trusted: TLC, Json module (the harness recomputes every row verdict with Fractions and aborts as "
                       "machinery failure on disagreement). Limits >= 0; verdicts compared on decisive cases only (exact "
@@ -109,7 +109,7 @@ CHECKS["C19"] = dict(
          "free-station choice within the constants, and Termination under weak fairness. Every emitted behaviour is "
          "replayed through the real Simulator+StochasticNetwork with random.choice returning the spec's station; "
          "runs with real random seeds under real schedulers are validated in batch by TLC against "
-         "StochasticNetTrace.tla, and equal seeds must give identical traces.",
+         "StochasticNetTrace.tla, and equal seeds must give identical traces. Real-seed runs fix the seed before or after the network is built, are repeated on a network object that served a simulation before, and contain sessions that request nothing.",
     tech="TLA+ spec (StochasticNet.tla) + TLC invariants/action property/liveness + spec-to-code replay + "
          "code-to-spec batch trace validation",
     ref="5/C19", note="Trusted: TLC/SANY, Json/IOUtils, the recording subclass. arrival >= 0, departure > arrival; "
@@ -124,7 +124,7 @@ CHECKS["C20"] = dict(
          "local fields for four zones in exact integer arithmetic over a lattice around DST transitions and a "
          "day-by-day calendar walk. DataClientTwo.tla: two generators of ONE client pulled in every order for every pair "
          "of pagings (OwnPrefix, CompleteAtStop, OneRequestPerPage, BothFinish). Every behaviour and lattice case is executed against the real DataClient (fake "
-         "transport) and acndata.utils.",
+         "transport) and acndata.utils. Calls are also made with positional arguments; a third of the documents spell days below 10 without the leading zero (RFC 1123 1*2DIGIT, theorem ThCompactDay).",
     tech="TLA+ specs (DataClient.tla, DataClientTime.tla) + TLC invariants/liveness + exhaustive spec-to-code replay",
     ref="5/C20", note="Trusted: TLC/SANY, Json, pytz as oracle for the four transcribed zones, the fake Eve-style "
                       "server. Stateless well-formed server, no HTTP errors; whole seconds 1971-2037; filters without "
@@ -138,7 +138,7 @@ CHECKS["C12"] = dict(
          "the bound, with Currents built by +, -, k*a, a*k (depth 2) from strings, lists, dicts. Every emitted "
          "behaviour is replayed through the real ChargingNetwork/Current and compared after each call "
          "(station_ids, constraint_matrix, constraints_as_df, magnitudes, constraint_index, constraint_current for "
-         "subsets of constraints and periods, every node of every Current expression).",
+         "subsets of constraints and periods, every node of every Current expression). Queries are repeated with linear=True on the same row/column subsets; UpdateUnknown models update_constraint with an unregistered station (either outcome the statement allows is accepted, alignment is demanded).",
     tech="TLA+ spec (Currents.tla) + TLC invariants/action properties + spec-to-code behaviour replay",
     ref="5/C12", note="Trusted: TLC, Json module, pandas/numpy. Phase angle 0 on all stations (phasor geometry is C06); "
                       "coefficients are multiples of 1/8 so float arithmetic is exact; time_indices ascending; values of "
@@ -152,7 +152,7 @@ CHECKS["C17"] = dict(
          "models get_tariffs / one simulation (VecAligned, CostIsSum, PeakIsMax). Every probe TLC visits is executed "
          "through TimeOfUseTariff.get_tariff/get_demand_charge/get_tariffs, Interface.get_prices/get_demand_charge "
          "inside a real simulation and analysis.energy_cost/demand_charge. Vector periods include 90, 720 (and 10080) "
-         "minutes; one long-lived tariff object per file answers most probes and every fifth probe uses a fresh object.",
+         "minutes; one long-lived tariff object per file answers most probes and every fifth probe uses a fresh object. Cost functions are asked with the simulation's tariff signal, an explicit tariff, an explicit tariff over a different signal, and without signals; periods up to 25 hours.",
     tech="TLA+ specs (Tariff.tla, Calendar.tla) + TLC invariants/action properties + one implementation test per TLC state",
     ref="5/C17", note="Trusted: TLC, Json module, Python datetime/pytz. Prices piecewise constant between probes "
                       "(every breakpoint +-1 s/60 s, 00:00:00, 23:59:59, seeded seconds); years 1970-2037 represented by "
@@ -223,7 +223,7 @@ CHECKS["C11"] = dict(
          "and that the heapq/tuple mechanism refines it (EventQueueHeap.tla, with a negative control). Binding is a "
          "round trip: TLC emits plans, each plan is executed on the real EventQueue with real events and real "
          "from_json(to_json()), and every log is validated by TLC against EventQueueTrace.tla in batches (a Python "
-         "reference model judges every line as a second oracle; nine corrupted traces must be rejected on every run).",
+         "reference model judges every line as a second oracle; nine corrupted traces must be rejected on every run). Plain Events with a caller-chosen precedence (-inf, default +inf) are two more kinds in the sampled plans.",
     tech="TLA+ specs (EventQueue.tla, EventQueueHeap.tla refinement) + TLC invariants + plan execution on the real queue "
          "+ code-to-spec batch trace validation",
     ref="5/C11", note="Trusted: TLC/SANY, Json, the harness' event identification. Integer timestamps >= 0; get_event only "
@@ -235,7 +235,7 @@ CHECKS["C18"] = dict(
          "ids, A_Nema, A_Proportion, A_Datetimes, A_Cost). Each completed behaviour is replayed step by step through the "
          "real Simulator on a network with heterogeneous voltages and three-phase constraint rows, then every real "
          "analysis function is called and compared with the spec's value (the order in which the two representations of "
-         "constraint currents are requested varies; the unbalance is asked for right after the other representation).",
+         "constraint currents are requested varies; the unbalance is asked for right after the other representation). Behaviours with every station on one phase are included and the complex phasor is compared wherever it is handed out; half of the networks have a constraint history (a row added first and removed last).",
     tech="TLA+ spec (Analysis.tla over AcnSim.tla) + TLC theorems + spec-to-code behaviour replay",
     ref="5/C18", note="Trusted: TLC, Json, the AcnSim replay harness. Angles in {30,-90,150}; coefficients multiples of 1/4; "
                       "rates multiples of 0.1 A (exact squared magnitudes); thresholds compared on decisive points only; "
